@@ -638,6 +638,18 @@ def _shape_idlist(ex, st):
                                  _ident(ex, st, 'i3', [n3])], gh)
 
 
+def _shape_idlist_kw(ex, st):
+    """SELECT a, <an item that lexes as a keyword: TRUE, DEFAULT, a column called type / owner / year>, c FROM t"""
+    from contracts.sql import _mk_leaf, _ws1
+    n1, n3 = _name(ex, st, 'n1'), _name(ex, st, 'n3')
+    kw = _mk_leaf(ex, st, None, 'kwitem', (ex.W.T.Keyword,))
+    c1 = _mk_leaf(ex, st, None, 'comma1', (ex.W.T.Punctuation,), value=',')
+    c2 = _mk_leaf(ex, st, None, 'comma2', (ex.W.T.Punctuation,), value=',')
+    w1, w2 = _ws1(ex, st, 'ws1'), _ws1(ex, st, 'ws2')
+    gh = {'N1': n1, 'KW': kw, 'N3': n3, 'C1': c1, 'C2': c2}
+    return _stmt_around(ex, st, [_ident(ex, st, 'i1', [n1]), c1, w1, kw, c2, w2, _ident(ex, st, 'i3', [n3])], gh)
+
+
 JOINER_SHAPE_CASES = []
 for _pass, _mk, _what, _ens in (
     ('group_period', _shape_period, 'qualifier . name',
@@ -661,6 +673,10 @@ for _pass, _mk, _what, _ens in (
      ['len(tlist.tokens) == 7', 'isinstance(tlist.tokens[2], sql.IdentifierList)', 'len(tlist.tokens[2].tokens) == 7',
       'tlist.tokens[2].tokens[0].tokens[0] is N1', 'tlist.tokens[2].tokens[1] is C1',
       'tlist.tokens[2].tokens[3].tokens[0] is N2', 'tlist.tokens[2].tokens[6].tokens[0] is N3', 'tlist.tokens[4] is FROM']),
+    ('group_identifier_list', _shape_idlist_kw, 'a, <keyword-typed item>, c',
+     ['len(tlist.tokens) == 7', 'isinstance(tlist.tokens[2], sql.IdentifierList)', 'len(tlist.tokens[2].tokens) == 7',
+      'tlist.tokens[2].tokens[0].tokens[0] is N1', 'tlist.tokens[2].tokens[1] is C1', 'tlist.tokens[2].tokens[3] is KW',
+      'tlist.tokens[2].tokens[4] is C2', 'tlist.tokens[2].tokens[6].tokens[0] is N3', 'tlist.tokens[4] is FROM']),
 ):
     _ns = {'__doc__': 'the pass %s on  SELECT %s FROM t  (names and quoting arbitrary): what it groups is exactly the written '
                       'construct, the neighbours stay siblings' % (_pass, _what),
